@@ -158,6 +158,9 @@ var deviantFlags = []struct {
 	set   func(*Rules)
 	// applies: cheap syntactic pre-filter — the rule can only matter for queries with this feature
 	applies func(*Query) bool
+	// evidence (optional): the generated SQL must show the construct the deviant rule describes; without it the rule
+	// is not what the implementation does and may not be used to explain the case
+	evidence func(*Query, string) bool
 }{
 	{"line_filter_neg_regex_negation_lost", func(r *Rules) { r.NegRegexLineLost = true }, func(q *Query) bool {
 		for _, s := range q.Stages {
@@ -166,12 +169,46 @@ var deviantFlags = []struct {
 			}
 		}
 		return false
+	}, func(q *Query, sqlText string) bool {
+		for _, s := range q.Stages {
+			if _, _, lit := regexLiteral(s.Val); s.Kind == "line" && s.Op == "!~" && !lit &&
+				strings.Contains(sqlText, "(match(string, "+sqlQuote(s.Val)+")) == (1)") {
+				return true
+			}
+		}
+		return false
 	}},
-	{"line_filter_like_backslash_unescaped", func(r *Rules) { r.LikeRawBackslash = true }, hasLikeStage},
-	{"line_filter_like_quote_trim", func(r *Rules) { r.LikeTrimQuotes = true }, hasLikeStage},
-	{"stream_matcher_requires_label_present", func(r *Rules) { r.MatcherNeedsLabel = true }, func(q *Query) bool { return true }},
-	{"json_param_nested_path_uses_last_segment", func(r *Rules) { r.JSONLastSegment = true }, hasJSON},
-	{"json_param_array_index_looked_up_as_key", func(r *Rules) { r.JSONIndexAsKey = true }, hasJSON},
+	{"line_filter_like_backslash_unescaped", func(r *Rules) { r.LikeRawBackslash = true }, hasLikeStage, func(q *Query, sqlText string) bool {
+		return likeEvidence(q, sqlText, func(v string) bool { return strings.Contains(v, `\`) }, [][2]bool{{false, true}, {true, true}})
+	}},
+	{"line_filter_like_quote_trim", func(r *Rules) { r.LikeTrimQuotes = true }, hasLikeStage, func(q *Query, sqlText string) bool {
+		return likeEvidence(q, sqlText, func(v string) bool { return strings.HasSuffix(v, "'") || strings.HasPrefix(v, "'") }, [][2]bool{{true, false}, {true, true}})
+	}},
+	{"stream_matcher_requires_label_present", func(r *Rules) { r.MatcherNeedsLabel = true }, func(q *Query) bool { return true }, nil},
+	{"json_param_nested_path_uses_last_segment", func(r *Rules) { r.JSONLastSegment = true }, hasJSON, func(q *Query, sqlText string) bool {
+		// the alias `as jp_N` directly after the last of several path elements
+		for _, s := range q.Stages {
+			for _, jp := range s.JSON {
+				if segs, ok := parseJSONPath(jp.Path); ok && len(segs) > 1 && strings.Contains(sqlText, "' as jp_") {
+					return true
+				}
+			}
+		}
+		return false
+	}},
+	{"json_param_array_index_looked_up_as_key", func(r *Rules) { r.JSONIndexAsKey = true }, hasJSON, func(q *Query, sqlText string) bool {
+		for _, s := range q.Stages {
+			for _, jp := range s.JSON {
+				segs, _ := parseJSONPath(jp.Path)
+				for _, sg := range segs {
+					if sg.isIdx && strings.Contains(sqlText, fmt.Sprintf("'%d'", sg.index+1)) {
+						return true
+					}
+				}
+			}
+		}
+		return false
+	}},
 	{"label_filter_sees_later_drop", func(r *Rules) { r.LaterDropVisible = true }, func(q *Query) bool {
 		sawParser, sawLabel := false, false
 		for _, s := range q.Stages {
@@ -187,7 +224,7 @@ var deviantFlags = []struct {
 			}
 		}
 		return false
-	}},
+	}, nil},
 	{"label_filter_before_parser_ignores_drop", func(r *Rules) { r.HoistedLabelFilter = true }, func(q *Query) bool {
 		sawDrop := false
 		for _, s := range q.Stages {
@@ -203,7 +240,44 @@ var deviantFlags = []struct {
 			}
 		}
 		return false
-	}},
+	}, nil},
+}
+
+// sqlQuote is sql_select.StringVal's rendering of a string literal.
+func sqlQuote(s string) string {
+	find := []string{"\\", "\000", "\n", "\r", "\b", "\t", "\x1a", "'"}
+	repl := []string{"\\\\", "\\0", "\\n", "\\r", "\\b", "\\t", "\\x1a", "\\'"}
+	for i, f := range find {
+		s = strings.ReplaceAll(s, f, repl[i])
+	}
+	return "'" + s + "'"
+}
+
+// likeEvidence: some LIKE-rendered line filter whose value has the triggering feature appears in the SQL with
+// exactly the literal the deviant construction produces.
+func likeEvidence(q *Query, sqlText string, trigger func(string) bool, variants [][2]bool) bool {
+	for _, s := range q.Stages {
+		if s.Kind != "line" {
+			continue
+		}
+		val := s.Val
+		if s.Op == "|~" || s.Op == "!~" {
+			lit, _, isLit := regexLiteral(s.Val)
+			if !isLit {
+				continue
+			}
+			val = lit
+		}
+		if !trigger(val) {
+			continue
+		}
+		for _, v := range variants {
+			if strings.Contains(sqlText, "'"+deviantLikeLiteral(val, v[0], v[1])+"'") {
+				return true
+			}
+		}
+	}
+	return false
 }
 
 func hasLikeStage(q *Query) bool {
@@ -304,7 +378,7 @@ func evaluate(spec caseSpec, db *Database, verbose bool) outcome {
 	// explanation search: the smallest set of documented deviant rules under which the oracle agrees
 	var applicable []int
 	for i, d := range deviantFlags {
-		if d.applies(spec.Query) {
+		if d.applies(spec.Query) && (d.evidence == nil || d.evidence(spec.Query, sqlText)) {
 			applicable = append(applicable, i)
 		}
 	}
